@@ -60,9 +60,19 @@ def ladder_extra(res, lad, cfgs):
     res.extra['branches_unreachable_here'] = lad['all'] - lad['reachable']
 
 
+SWEEP_CLANG = ('SSE2', 'AVX2', 'F', 'ALL')
+SWEEP_PROPS = ('C06', 'C11', 'C12', 'C13')
+
+
 def std_args(tier, seed, prop):
+    """The exhaustive 2^32 sweeps of the thorough tier (C06, C11, C12, C13) run in the g++ -O2 build of every
+    configuration and in the clang++ build of four landmark configurations; the other builds of the same
+    configuration (sanitizer, other optimisation levels) run the lattice/random workload only."""
     def f(job):
-        return ['--tier', tier, '--seed', str(seed), '--property', prop]
+        a = ['--tier', tier, '--seed', str(seed), '--property', prop]
+        if tier == 'thorough' and job.variant == 'plain' and (job.compiler == 'g++' or configs.name(job.cfg) in SWEEP_CLANG):
+            a.append('--sweep')
+        return a
     return f
 
 
@@ -75,6 +85,13 @@ def value_check(prop, src, tier, seed, rule, assumptions, parts=(1, 2, 3, 4), cl
     ladder_extra(res, lad, cfgs)
     if post:
         post(res)
+    if tier == 'thorough' and prop in SWEEP_PROPS:
+        sw = [(i, c) for i, c in res.cells if c.get('op', '').endswith('/all2^32')]
+        res.extra['exhaustive_2^32_sweep_cells'] = len(sw)
+        res.extra['exhaustive_2^32_sweep_configurations'] = sorted({i['config'] for i, _ in sw})
+        rule += (' THOROUGH TIER: additionally every one of the 2^32 bit patterns of the 32-bit element type, as vectors of consecutive patterns, for the widest '
+                 'vector type of the configuration, the 128-bit one and (no-macro build) the width-1 one, in the g++ -O2 build of every configuration and the clang++ '
+                 'build of SSE2/AVX2/F/ALL; these cells are named <op>/all2^32 and counted in exhaustive_2^32_sweep_cells.')
     return finish(res, 'exploration', rule, assumptions, min_cells=len(cfgs))
 
 
